@@ -141,3 +141,27 @@ package common
 //@   requires bA != nil && bA.Bits == 0 && len(bA.Elems) == 0
 //@   modifies bA.Bits, bA.Elems
 //@   ensures [establishesWF] protoBitArray != nil && bA.Bits != 0 ==> wfBits(bA)
+
+// ---------------------------------------------------------------- fixed-size byte arrays
+// One-line wrappers around bytes.Equal / copy over the whole array. Trusted: relating the element-wise
+// facts of bytes.Equal on array-backed slices to array equality needs extensionality reasoning the
+// solvers do not do unprompted.
+//@ trusted func (h Hash) Equal(anotherHash Hash) (r bool)
+//@   ensures r <==> h == anotherHash
+//@ trusted func (h *Hash) IsZero() (r bool)
+//@   requires h != nil
+//@   ensures r <==> *h == Hash{}
+//@ trusted func (a Address) Equal(anotherAdd Address) (r bool)
+//@   ensures r <==> a == anotherAdd
+//@ trusted func (h Hash) Bytes() (r []byte)
+//@   ensures fresh(r) && len(r) == 32 && content(r) == content(h)
+//@   ensures forall i int :: 0 <= i && i < 32 ==> r[i] == h[i]
+//@ trusted func (a Address) Bytes() (r []byte)
+//@   ensures fresh(r) && len(r) == 20 && content(r) == content(a)
+//@   ensures forall i int :: 0 <= i && i < 20 ==> r[i] == a[i]
+//@ trusted func BytesToHash(b []byte) (h Hash)
+//@   ensures len(b) == 32 ==> content(h) == content(b)
+//@   ensures len(b) == 0 ==> h == Hash{}
+//@ trusted func BytesToAddress(b []byte) (a Address)
+//@   ensures len(b) == 20 ==> content(a) == content(b)
+//@   ensures len(b) == 0 ==> a == Address{}
